@@ -12,7 +12,11 @@ variable with terms of several types raises only if no earlier variable has deci
 
 `Variable.highest_membership` is a fold over the terms that keeps the first term with the largest positive degree (a
 `ValueError` of a membership function counts as NaN, any other exception goes through); `Variable.fuzzify` concatenates
-the texts of the activated terms, the first one without padding. -/
+the texts of the activated terms, the first one without padding.  Both wrap a term and its degree in `Activated(term,
+degree)`, whose constructor stores the degree through the setter of `Activated.degree`: `nan_to_num(degree, nan=0,
+neginf=0, posinf=1)` (`X.nanToNum01`).  In `highest_membership` the stored degree is what later terms are compared
+with and what the caller gets: a membership value of `+inf` (a `Constant` or `Linear` term) is kept as 1, so a later
+term of degree 5 replaces it (found by the differential stream of C01; the model compared with `+inf` before). -/
 
 namespace Op.Infer
 open Op.Weighted
@@ -92,7 +96,7 @@ def degreeOf {τ : Type} (mu : τ → Py.M (X Rat)) (t : τ) : Py.M (X Rat) :=
   | r => r
 
 /-- one step: the term replaces the current highest when there is none and its degree is positive, or when its degree
-    is larger -/
+    is larger than the degree the current highest holds (`highest.degree`, as stored by the constructor) -/
 def better (highest : Option (τ × X Rat)) (d : X Rat) : Bool :=
   match highest with
   | none => X.lt (.fin 0) d
@@ -100,7 +104,7 @@ def better (highest : Option (τ × X Rat)) (d : X Rat) : Bool :=
 
 def highestLoop {τ : Type} (mu : τ → Py.M (X Rat)) : List τ → Option (τ × X Rat) → Py.M (Option (τ × X Rat))
   | [], h => .ok h
-  | t :: rest, h => degreeOf mu t >>= fun d => highestLoop mu rest (if better h d then some (t, d) else h)
+  | t :: rest, h => degreeOf mu t >>= fun d => highestLoop mu rest (if better h d then some (t, X.nanToNum01 d) else h)
 
 /-- **`Variable.highest_membership`** -/
 def highestMembership {τ : Type} (mu : τ → Py.M (X Rat)) (terms : List τ) : Py.M (Option (τ × X Rat)) :=
@@ -108,11 +112,12 @@ def highestMembership {τ : Type} (mu : τ → Py.M (X Rat)) (terms : List τ) :
 
 /-! ## `Variable.fuzzify` -/
 
-/-- **`Variable.fuzzify`** (scalar `x`): `fv (term, degree) padding` is the text `Activated.fuzzy_value(padding)` -/
+/-- **`Variable.fuzzify`** (scalar `x`): `fv (term, degree) padding` is the text `Activated.fuzzy_value(padding)` of
+    an activated term that holds `degree` (what the constructor stored) -/
 def fuzzifyLoop {τ : Type} (mu : τ → Py.M (X Rat)) (fv : τ × X Rat → Bool → String) :
     List (Nat × τ) → String → Py.M String
   | [], s => .ok s
-  | (i, t) :: rest, s => mu t >>= fun d => fuzzifyLoop mu fv rest (s ++ fv (t, d) (decide (i > 0)))
+  | (i, t) :: rest, s => mu t >>= fun d => fuzzifyLoop mu fv rest (s ++ fv (t, X.nanToNum01 d) (decide (i > 0)))
 
 def fuzzify {τ : Type} (mu : τ → Py.M (X Rat)) (fv : τ × X Rat → Bool → String) (terms : List τ) : Py.M String :=
   fuzzifyLoop mu fv (Py.enumerate terms) ""
